@@ -13,8 +13,12 @@ Vocabulary (all defined in Model/ or Lemmas/):
                            top-level chord has all its keys inside `K`.
 * `Fresh s`                zippychord enabled, no key held, nothing remembered from earlier activations.
 * `ModsAgree s b`          the buffer's shift/AltGr state is the one zippychord believes the user holds.
+* `bufAfterPunct`          the buffer after the documented smart-space erasure, if the first key of a chord
+                           is a smart-space punctuation key pressed right after a smart space was sent.
+* `zRunPinned`             the same run over the model of the code BEFORE the `fix:` commits for defect
+                           classes 1, 4, 5, 6, 7-8 (used by the counterexample theorems only).
 -/
-import KVerif.Lemmas.ZippyRun
+import KVerif.Lemmas.ZippyFollow
 import KVerif.Lemmas.ZippyMods
 import KVerif.Lemmas.ZippyPass
 import KVerif.Lemmas.ZippySim
@@ -47,12 +51,14 @@ inside `K` (longer chords and follow-ups may exist).  From a fresh state, press 
 ANY order (`front` = all but the last key, each with the number of ticks that pass before the next
 press; `last` = the completing key; together a permutation of `K`), the last press coming less
 than `on-first-press-chord-deadline` ticks after the first (no limit if the deadline is 0) and no
-single gap above the forced-reset time.  Then, whatever the text before and whichever of shift and
-AltGr the user holds:
+single gap above the forced-reset time.  Then, whatever the text before, whichever of shift and
+AltGr the user holds and whatever the smart-space state:
 
-* the text afterwards is the text before with exactly the expansion typed on top of it (first
-  keystroke under the user's shift) and the smart space when configured — every character typed
-  while forming the chord has been erased, nothing else has;
+* the text afterwards is the text before — minus the smart space of an earlier activation if the
+  first key pressed is a smart-space punctuation key (`bufAfterPunct`, the documented erasure) —
+  with exactly the expansion typed on top of it (first keystroke under the user's shift) and the
+  smart space when configured: every character typed while forming the chord has been erased,
+  nothing else has (since `<fix-class-6>` also when that first key is a punctuation key);
 * shift and AltGr at the OS are as the user holds them;
 * zippychord regards the press as a chord (`lastPress = isChord`) with exactly `K` held.
 
@@ -65,24 +71,26 @@ theorem zippy_net_text_basic (cfg : Cfg) (K : Key) (out : List ZchOut) (s : Zchd
     (hperm : (front.map (·.1) ++ [last]).Perm K)
     (hgap : ∀ kg ∈ front, kg.2 ≤ TICKS_UNTIL_FORCE_STATE_RESET)
     (hdl : cfg.ticksChordDeadline = 0 ∨ (front.map (·.2)).sum < cfg.ticksChordDeadline)
-    (hfresh : Fresh s) (hmods : ModsAgree s b)
-    (hss : s.smartSpaceState = .inactive ∨ ∀ x ∈ K, cfg.punctuation.contains (puncOf s x) = false) :
+    (hfresh : Fresh s) (hmods : ModsAgree s b) :
+    let first := (front.map (·.1) ++ [last]).headD 0
     let r := zRun cfg s (chordHist front ++ [.press last])
-    (b.run r.2).rtext = withSmartSpace cfg out (typeOuts b.rtext (s.lsft || s.rsft) out) ∧
+    (b.run r.2).rtext =
+      withSmartSpace cfg out (typeOuts (bufAfterPunct cfg s first b).rtext (s.lsft || s.rsft) out) ∧
     ModsAgree s (b.run r.2) ∧ r.1.lastPress = .isChord ∧ r.1.inputKeys = K := by
-  intro r
-  have h := basic_run cfg K out s b front last hent hkeys hout hko hperm hgap hdl hfresh hmods hss
+  intro first r
+  have h := basic_run cfg K out s b front last hent hkeys hout hko hperm hgap hdl hfresh hmods
   exact ⟨h.1, h.2.1, h.2.2.1, h.2.2.2.1⟩
 
 /-- The state `Kanata::new_from_str` leaves zippychord in is fresh. -/
 example : Fresh (zchConfigure Zchd.default) := ⟨rfl, rfl, rfl, rfl, rfl, rfl, rfl⟩
 
-/-- dictionary `acb ↦ xY`, `dy ↦ day`, `dy 1 ↦ M` (as the parser builds it), smart space on -/
+/-- dictionary `acb ↦ xY`, `dy ↦ day`, `dy 1 ↦ M` (as the parser builds it), smart space on, `a` a
+punctuation key -/
 def exCfg : Cfg :=
   ⟨[⟨[], [30, 46, 48], [⟨.lower, false, 45⟩, ⟨.upper, false, 21⟩]⟩,
     ⟨[], [21, 32], [⟨.lower, false, 32⟩, ⟨.lower, false, 30⟩, ⟨.lower, false, 21⟩]⟩,
     ⟨[[21, 32]], [2], [⟨.upper, false, 50⟩]⟩], 500, 50, .full,
-   [⟨.lower, false, 52⟩]⟩
+   [⟨.lower, false, 52⟩, ⟨.lower, false, 30⟩]⟩
 
 theorem exCfg_built : buildDict
     [⟨[[48, 30, 46]], [⟨.lower, false, 45⟩, ⟨.upper, false, 21⟩]⟩,
@@ -90,20 +98,19 @@ theorem exCfg_built : buildDict
      ⟨[[32, 21], [2]], [⟨.upper, false, 50⟩]⟩] = .ok exCfg.dict := by rfl
 
 /-- The hypotheses of `zippy_net_text_basic` are met by a concrete non-trivial instance: the three-key
-chord `a c b` pressed in the order b, a, c with gaps 3 and 0, right shift held, after a previous
-activation left the smart-space state `sent`. -/
+chord `a c b` pressed in the order a, b, c with gaps 3 and 0, after a previous activation left the
+smart-space state `sent` and its space on screen; `a` is a punctuation key, so that space goes. -/
 example :
-    let s : Zchd := { zchConfigure Zchd.default with rsft := true, smartSpaceState := .sent }
-    let b : Buf := ⟨[⟨30, false, false⟩], false, true, false⟩
+    let s : Zchd := { zchConfigure Zchd.default with smartSpaceState := .sent }
+    let b : Buf := ⟨[⟨57, false, false⟩, ⟨30, false, false⟩], false, false, false⟩
     BasicEntry exCfg.dict [30, 46, 48] [⟨.lower, false, 45⟩, ⟨.upper, false, 21⟩] ∧
     (∀ x ∈ [30, 46, 48], isZippyIgnored x = false) ∧
     (∀ o ∈ [(⟨.lower, false, 45⟩ : ZchOut), ⟨.upper, false, 21⟩], CharKey o.osc) ∧
-    (List.map Prod.fst ([(48, 3), (30, 0)] : List (Nat × Nat)) ++ [46]).Perm [30, 46, 48] ∧
-    (exCfg.ticksChordDeadline = 0 ∨ (List.map Prod.snd ([(48, 3), (30, 0)] : List (Nat × Nat))).sum < exCfg.ticksChordDeadline) ∧
-    Fresh s ∧ ModsAgree s b ∧
-    (s.smartSpaceState = .inactive ∨ ∀ x ∈ [30, 46, 48], exCfg.punctuation.contains (puncOf s x) = false) ∧
-    (b.run (zRun exCfg s (chordHist [(48, 3), (30, 0)] ++ [.press 46])).2).shown =
-      [⟨30, false, false⟩, ⟨45, true, false⟩, ⟨21, true, false⟩, ⟨57, false, false⟩] := by
+    (List.map Prod.fst ([(30, 3), (48, 0)] : List (Nat × Nat)) ++ [46]).Perm [30, 46, 48] ∧
+    (exCfg.ticksChordDeadline = 0 ∨ (List.map Prod.snd ([(30, 3), (48, 0)] : List (Nat × Nat))).sum < exCfg.ticksChordDeadline) ∧
+    Fresh s ∧ ModsAgree s b ∧ punctFires exCfg s 30 = true ∧
+    (b.run (zRun exCfg s (chordHist [(30, 3), (48, 0)] ++ [.press 46])).2).shown =
+      [⟨30, false, false⟩, ⟨45, false, false⟩, ⟨21, true, false⟩, ⟨57, false, false⟩] := by
   refine ⟨⟨by decide, by decide, by unfold StrictSorted; decide, ?_, by decide⟩, by decide, ?_, by decide, by decide,
     ⟨rfl, rfl, rfl, rfl, rfl, rfl, rfl⟩, ⟨rfl, rfl, rfl⟩, by decide, by decide⟩
   · intro o h
@@ -116,8 +123,8 @@ example :
     simp at h
     rcases h with rfl | rfl <;> (unfold CharKey; decide)
 
-/-- **zippy_net_text_basic_shown**: the same in reading order, for expansions without a Backspace:
-`textAfter = textBefore ++ expansion (++ " " with smart space)`. -/
+/-- **zippy_net_text_basic_shown**: the same in reading order, for expansions without a Backspace and
+a first key that is no smart-space punctuation key: `textAfter = textBefore ++ expansion (++ " ")`. -/
 theorem zippy_net_text_basic_shown (cfg : Cfg) (K : Key) (out : List ZchOut) (s : Zchd) (b : Buf)
     (front : List (Nat × Nat)) (last : Nat)
     (hent : BasicEntry cfg.dict K out)
@@ -128,13 +135,13 @@ theorem zippy_net_text_basic_shown (cfg : Cfg) (K : Key) (out : List ZchOut) (s 
     (hgap : ∀ kg ∈ front, kg.2 ≤ TICKS_UNTIL_FORCE_STATE_RESET)
     (hdl : cfg.ticksChordDeadline = 0 ∨ (front.map (·.2)).sum < cfg.ticksChordDeadline)
     (hfresh : Fresh s) (hmods : ModsAgree s b)
-    (hss : s.smartSpaceState = .inactive ∨ ∀ x ∈ K, cfg.punctuation.contains (puncOf s x) = false) :
+    (hss : punctFires cfg s ((front.map (·.1) ++ [last]).headD 0) = false) :
     (b.run (zRun cfg s (chordHist front ++ [.press last])).2).shown =
       b.shown ++ expansionChars (s.lsft || s.rsft) out ++
         (if wantsSmartSpace cfg out then [mkCh KEY_SPACE false false] else []) := by
   have h := (zippy_net_text_basic cfg K out s b front last hent hkeys hout hko hperm hgap hdl hfresh
-    hmods hss).1
-  simp only [Buf.shown, h, withSmartSpace, typeOuts_noBackspace _ _ _ hnb]
+    hmods).1
+  simp only [Buf.shown, h, withSmartSpace, typeOuts_noBackspace _ _ _ hnb, bufAfterPunct, hss]
   split <;> simp [stroke, KEY_SPACE, KEY_BACKSPACE]
 
 /- The property at full strength also covers chords that extend other chords ("any shorter expansion
@@ -143,204 +150,303 @@ it supersedes is erased"), follow-up chords, and all of this with shift held:
     for every dictionary, every line `c1 … cm ↦ out` of it and every way of pressing the chords
     (each in any order, within the deadline), textAfter = textBefore ++ out (++ smart space).
 
-That statement is FALSE of the code (see the `_counterexample` theorems below and KNOWN_FINDINGS.jsonl);
-what is proved of it beyond `zippy_net_text_basic` is the two-level case below. -/
+On the pinned code that statement was false in many ways (the `_counterexample` theorems below, about
+the pinned definitions).  With `<fix-class-1>`, `<fix-class-4>`, `<fix-class-5>`, `<fix-class-6>` and
+`<fix-class-7-8>` the parts below are proved; what is still missing — and still false of the code, see
+KNOWN_FINDINGS.jsonl — is named at each theorem. -/
 
-/-- **zippy_net_text_extends_partial**.  A chord `K2 ↦ out2` that extends a chord `K1 ↦ out1`
-(kanata's "ab ↦ Abba, abc ↦ Alphabet"): the top-level chords inside `K2` are exactly `K1` and `K2`,
-`K1` has none inside it and no follow-ups.  From a fresh state the keys of `K1` go down in ANY order
-(the eager activation types `out1`), `g` ticks pass, then the remaining keys of `K2` go down in ANY
-order, each phase inside the deadline (which restarts at the activation).  Then the text afterwards
-is the text before plus exactly `out2` (and its smart space): `out1`, its smart space and every key
-typed on the way have been erased — through the common-prefix shortcut, whatever prefix the two
-expansions share — and AltGr is as the user holds it.
-Missing for the full statement: shift held (the code types the first NEW character shifted when the
-expansions share a prefix — a recorded finding), expansions containing Backspace or no-erase outputs,
-three or more nested chords (a recorded finding), follow-up chords (several recorded findings). -/
-theorem zippy_net_text_extends_partial (cfg : Cfg) (K1 K2 : Key) (out1 out2 : List ZchOut)
-    (s : Zchd) (b : Buf) (front1 : List (Nat × Nat)) (last1 g : Nat) (front2 : List (Nat × Nat)) (last2 : Nat)
+/-- **zippy_net_text_tower_partial**.  Chords that extend eagerly activated chords, to ANY depth
+(kanata's "ab ↦ Abba, abc ↦ Alphabet", and on to "abcd ↦ …"): `K1 ↦ out1` is a basic chord without
+follow-ups, and `steps` is a list of levels, each a chord `K ↦ out` that contains the previous one
+with no other top-level chord in between (`ExtEntry`), no follow-ups, its new keys pressed in ANY order
+after `g` ticks, each level inside the deadline (which restarts at every activation).  From a fresh
+state, whatever shift / AltGr the user holds: after the keys of `K1` (any order) and of all levels,
+the text is the text before plus exactly the expansion of the LAST level (first keystroke under the
+user's shift) and its smart space — every earlier expansion, its smart space and every key typed on
+the way have been erased, whatever prefixes consecutive expansions share (the common-prefix shortcut
+keeps its count since `<fix-class-4>`, and types no shifted character in the middle since
+`<fix-class-5>`) — and the modifiers are as the user holds them.
+Missing for the full statement: expansions containing Backspace or no-erase outputs (a recorded
+finding for Backspace), chords of the tower that have follow-ups, keys that are smart-space
+punctuation keys (for the levels above the first). -/
+theorem zippy_net_text_tower_partial (cfg : Cfg) (K1 : Key) (out1 : List ZchOut) (s : Zchd) (b : Buf)
+    (front1 : List (Nat × Nat)) (last1 : Nat) (steps : List Step)
     (hent1 : BasicEntry cfg.dict K1 out1) (hnf1 : hasFollowups cfg.dict [K1] = false)
-    (hext : ExtEntry cfg.dict K1 K2 out2) (hsub : ∀ x ∈ K1, x ∈ K2)
-    (hkeys : ∀ x ∈ K2, isZippyIgnored x = false)
+    (hkeys1 : ∀ x ∈ K1, isZippyIgnored x = false)
     (hout1 : out1.isEmpty = false) (hko1 : ∀ o ∈ out1, CharKey o.osc) (hp1 : PlainOuts out1)
-    (hout2 : out2.isEmpty = false) (hko2 : ∀ o ∈ out2, CharKey o.osc) (hp2 : PlainOuts out2)
     (hperm1 : (front1.map (·.1) ++ [last1]).Perm K1)
-    (hperm2 : (front2.map (·.1) ++ [last2]).Perm (K2.filter (fun x => !K1.contains x)))
     (hgap1 : ∀ kg ∈ front1, kg.2 ≤ TICKS_UNTIL_FORCE_STATE_RESET)
-    (hgap2 : ∀ kg ∈ front2, kg.2 ≤ TICKS_UNTIL_FORCE_STATE_RESET)
-    (hg : g ≤ TICKS_UNTIL_FORCE_STATE_RESET)
     (hdl1 : cfg.ticksChordDeadline = 0 ∨ (front1.map (·.2)).sum < cfg.ticksChordDeadline)
-    (hdl2 : cfg.ticksChordDeadline = 0 ∨ g + (front2.map (·.2)).sum < cfg.ticksChordDeadline)
-    (hfresh : Fresh s) (hmods : ModsAgree s b) (hnosh : s.lsft = false ∧ s.rsft = false)
-    (hpunc : ∀ x ∈ K2, cfg.punctuation.contains (puncOf s x) = false) :
-    let r := zRun cfg s ((chordHist front1 ++ [.press last1]) ++
-      (List.replicate g .tick ++ (chordHist front2 ++ [.press last2])))
-    (b.run r.2).rtext = withSmartSpace cfg out2 (typeOuts b.rtext false out2) ∧ ModsAgree s (b.run r.2) := by
-  intro r
-  have hkeys1 : ∀ x ∈ K1, isZippyIgnored x = false := fun x hx => hkeys x (hsub x hx)
-  -- phase 1: K1
-  obtain ⟨ht1, hm1, _, _, hpost⟩ := basic_run cfg K1 out1 s b front1 last1 hent1 hkeys1 hout1 hko1 hperm1
-    hgap1 hdl1 hfresh hmods (Or.inr (fun x hx => hpunc x (hsub x hx)))
-  have hf1 := hpost hnf1
-  -- the gap
-  have hf2 := hf1.ticks g (by omega) (by rcases hdl2 with h0 | h1; exact Or.inl h0; exact Or.inr (by omega))
-  simp only [Nat.zero_add] at hf2
-  -- phase 2: the rest of K2
-  have hmem1 : ∀ x, x ∈ front1.map (·.1) ++ [last1] ↔ x ∈ K1 := fun x => hperm1.mem_iff
-  have hmem2 : ∀ x, x ∈ front2.map (·.1) ++ [last2] ↔ (x ∈ K2 ∧ x ∉ K1) := by
-    intro x
-    rw [hperm2.mem_iff]
-    simp [List.mem_filter]
-  have hnodup2 : (front2.map (·.1) ++ [last2]).Nodup := by
-    apply hperm2.nodup_iff.mpr
-    exact (hext.sorted.imp (fun h => Nat.ne_of_lt h)).filter _
-  have hrun : r = zRun cfg s ((chordHist front1 ++ [.press last1]) ++
-      (List.replicate g .tick ++ (chordHist front2 ++ [.press last2]))) := rfl
-  rw [zRun_append, zRun_append, zRun_ticks] at hrun
-  simp only [List.nil_append] at hrun
-  generalize hs1 : zRun cfg s (chordHist front1 ++ [ZEv.press last1]) = r1 at ht1 hm1 hf1 hf2 hrun
-  have hbm : (b.run r1.2).lsft = b.lsft ∧ (b.run r1.2).rsft = b.rsft ∧ (b.run r1.2).ralt = b.ralt := by
-    obtain ⟨a1, a2, a3⟩ := hm1
-    obtain ⟨c1, c2, c3⟩ := hmods
-    exact ⟨by rw [a1, c1], by rw [a2, c2], by rw [a3, c3]⟩
-  obtain ⟨⟨L, hL, ht2⟩, hm2, _⟩ := ext_run cfg
-    (postPhase (freshPhase s) cfg (front1.map (·.1) ++ [last1]) out1) K1 K2 out2 s (ticksN r1.1 g) b (b.run r1.2)
-    g g front2 last2 hf2 hbm hmods hent1.root_nonempty hext
-    (by intro x; simp only [postPhase]; exact hmem1 x) hent1.sorted hkeys
-    (by
-      intro kg hkg h1
-      have := (hmem2 kg.1).mp (by
-        simp only [List.mem_append, List.mem_map, List.mem_singleton]
-        exact Or.inl ⟨kg, hkg, rfl⟩)
-      exact this.2 h1)
-    (by
-      intro x
-      simp only [postPhase]
-      rw [List.mem_append, hmem1 x, hmem2 x]
-      constructor
-      · rintro (h | h)
-        · exact hsub x h
-        · exact h.1
-      · intro h
-        by_cases h1 : x ∈ K1
-        · exact Or.inl h1
-        · exact Or.inr ⟨h, h1⟩)
-    (by
-      simp only [postPhase]
-      intro h
-      rcases List.mem_append.mp h with h | h
-      · exact ((hmem2 last2).mp (by simp)).2 ((hmem1 last2).mp h)
-      · have := List.nodup_append.mp hnodup2
-        exact this.2.2 last2 h last2 (by simp) rfl)
-    ((hmem2 last2).mp (by simp)).2
-    (Or.inr hpunc) hout2 hko2 hgap2 hdl2
+    (hsteps : TowerOK cfg s K1 steps)
+    (hfresh : Fresh s) (hmods : ModsAgree s b) :
+    let base := bufAfterPunct cfg s ((front1.map (·.1) ++ [last1]).headD 0) b
+    let top := towerTop K1 out1 steps
+    let r := zRun cfg s ((chordHist front1 ++ [.press last1]) ++ towerHist steps)
+    (b.run r.2).rtext = withSmartSpace cfg top.2 (typeOuts base.rtext (s.lsft || s.rsft) top.2) ∧
+    ModsAgree s (b.run r.2) := by
+  intro base top r
+  have he := basic_eager cfg K1 out1 s b front1 last1 hent1 hnf1 hkeys1 hout1 hko1 hp1 hperm1 hgap1 hdl1
+    hfresh hmods
+  have ht := tower_run cfg s base steps K1 out1 _ _ hent1.root_nonempty he hsteps
+  have hrun : r = ((zRun cfg (zRun cfg s (chordHist front1 ++ [.press last1])).1 (towerHist steps)).1,
+      (zRun cfg s (chordHist front1 ++ [.press last1])).2 ++
+        (zRun cfg (zRun cfg s (chordHist front1 ++ [.press last1])).1 (towerHist steps)).2) := by
+    show zRun cfg s ((chordHist front1 ++ [.press last1]) ++ towerHist steps) = _
+    rw [zRun_append]
   rw [hrun]
   simp only [run_append]
-  refine ⟨?_, hm2⟩
-  rw [ht2, ht1]
-  -- the arithmetic of what is erased
-  have hsh : (s.lsft || s.rsft) = false := by simp [hnosh.1, hnosh.2]
-  have hcpl0 : phaseCpl (freshPhase s) out1 = 0 := by
-    unfold phaseCpl freshPhase; simp only; split <;> rfl
-  have hcpl : phaseCpl (postPhase (freshPhase s) cfg (front1.map (·.1) ++ [last1]) out1) out2 =
-      commonPrefixLen out1 out2 := by
-    simp [phaseCpl, postPhase]
-  have hn := commonPrefixLen_le out1 out2
-  rw [hcpl, hsh]
-  simp only [postPhase, hcpl0, List.drop_zero, displayLen_plain out1 hp1]
-  have hX := typeOuts_plain_length b.rtext out1 hp1
-  have hdrop : List.drop ((↑out1.length + (if wantsSmartSpace cfg out1 = true then (1 : Int) else 0) + ↑front2.length -
-        ↑(commonPrefixLen out1 out2)).toNat) (L ++ withSmartSpace cfg out1 (typeOuts b.rtext false out1)) =
-      typeOuts b.rtext false (out1.take (commonPrefixLen out1 out2)) := by
-    rw [← typeOuts_plain_drop b.rtext out1 hp1 _ hn.1]
-    unfold withSmartSpace
-    split
-    · have : ((out1.length : Int) + 1 + front2.length - (commonPrefixLen out1 out2 : Int)).toNat =
-          L.length + (1 + (out1.length - commonPrefixLen out1 out2)) := by omega
-      rw [this, List.drop_append, List.drop_eq_nil_of_le (by omega), Nat.add_sub_cancel_left]
-      simp only [stroke, KEY_SPACE, KEY_BACKSPACE, List.nil_append]
-      rw [Nat.add_comm 1]
-      simp [List.drop_succ_cons]
-    · have : ((out1.length : Int) + 0 + front2.length - (commonPrefixLen out1 out2 : Int)).toNat =
-          L.length + (out1.length - commonPrefixLen out1 out2) := by omega
-      rw [this, List.drop_append, List.drop_eq_nil_of_le (by omega), Nat.add_sub_cancel_left]
-      simp
-  rw [hdrop, ← typeOuts_append_false, commonPrefixLen_take, List.take_append_drop]
+  obtain ⟨_, _, _, _, _, _, _, htext, hm, _⟩ := ht
+  exact ⟨htext, hm⟩
 
-/-- dictionary `ab ↦ xy`, `abc ↦ xyz` with smart space -/
+/-- dictionary `a ↦ x`, `ab ↦ xy`, `abc ↦ xyz` with smart space -/
 def exCfg2 : Cfg :=
-  ⟨[⟨[], [30, 48], [⟨.lower, false, 45⟩, ⟨.lower, false, 21⟩]⟩,
+  ⟨[⟨[], [30], [⟨.lower, false, 45⟩]⟩,
+    ⟨[], [30, 48], [⟨.lower, false, 45⟩, ⟨.lower, false, 21⟩]⟩,
     ⟨[], [30, 46, 48], [⟨.lower, false, 45⟩, ⟨.lower, false, 21⟩, ⟨.lower, false, 44⟩]⟩], 500, 50, .full, []⟩
 
-/-- The hypotheses of `zippy_net_text_extends_partial` are met by a concrete instance (b, a, 7 ticks, c),
-and the text is `xyz␣` as the theorem says. -/
+def exSteps2 : List Step :=
+  [⟨[30, 48], [⟨.lower, false, 45⟩, ⟨.lower, false, 21⟩], 2, [], 48⟩,
+   ⟨[30, 46, 48], [⟨.lower, false, 45⟩, ⟨.lower, false, 21⟩, ⟨.lower, false, 44⟩], 7, [], 46⟩]
+
+/-- The hypotheses of `zippy_net_text_tower_partial` are met by a concrete three-level instance
+(a; 2 ticks, b; 7 ticks, c — with left shift held), and the text is `Xyz␣` as the theorem says. -/
+example :
+    let s : Zchd := { zchConfigure Zchd.default with lsft := true }
+    let b : Buf := ⟨[], true, false, false⟩
+    BasicEntry exCfg2.dict [30] [⟨.lower, false, 45⟩] ∧ hasFollowups exCfg2.dict [[30]] = false ∧
+    TowerOK exCfg2 s [30] exSteps2 ∧ Fresh s ∧ ModsAgree s b ∧
+    (b.run (zRun exCfg2 s ((chordHist [] ++ [.press 30]) ++ towerHist exSteps2)).2).shown =
+      [⟨45, true, false⟩, ⟨21, false, false⟩, ⟨44, false, false⟩, ⟨57, false, false⟩] := by
+  have hl : level exCfg2.dict [] = [([30], [⟨.lower, false, 45⟩]),
+      ([30, 48], [⟨.lower, false, 45⟩, ⟨.lower, false, 21⟩]),
+      ([30, 46, 48], [⟨.lower, false, 45⟩, ⟨.lower, false, 21⟩, ⟨.lower, false, 44⟩])] := by decide
+  have hck : ∀ o ∈ [(⟨.lower, false, 45⟩ : ZchOut), ⟨.lower, false, 21⟩, ⟨.lower, false, 44⟩], CharKey o.osc := by
+    intro o h; simp at h; rcases h with rfl | rfl | rfl <;> (unfold CharKey; decide)
+  have hpl : ∀ l : List ZchOut, (∀ o ∈ l, o ∈ [(⟨.lower, false, 45⟩ : ZchOut), ⟨.lower, false, 21⟩, ⟨.lower, false, 44⟩]) →
+      PlainOuts l := by
+    intro l hlm o ho
+    have := hlm o ho
+    simp at this
+    rcases this with rfl | rfl | rfl <;> decide
+  refine ⟨⟨by decide, by decide, by unfold StrictSorted; decide, ?_, by decide⟩, by decide, ⟨?_, ?_, trivial⟩,
+    ⟨rfl, rfl, rfl, rfl, rfl, rfl, rfl⟩, ⟨rfl, rfl, rfl⟩, by decide⟩
+  · intro o h; rw [hl] at h; simp at h; exact h
+  · refine ⟨⟨by decide, by decide, by unfold StrictSorted; decide, ?_, by decide⟩, by decide, by decide, by decide,
+      by decide, ?_, ?_, by decide, by decide, by decide, by decide, by decide⟩
+    · intro o h; rw [hl] at h; simp at h; exact h
+    · intro o ho; exact hck o (by simp at ho ⊢; rcases ho with rfl | rfl <;> simp)
+    · exact hpl _ (by intro o ho; simp at ho ⊢; rcases ho with rfl | rfl <;> simp)
+  · refine ⟨⟨by decide, by decide, by unfold StrictSorted; decide, ?_, by decide⟩, by decide, by decide, by decide,
+      by decide, ?_, ?_, by decide, by decide, by decide, by decide, by decide⟩
+    · intro o h; rw [hl] at h; simp at h; exact h
+    · intro o ho; exact hck o ho
+    · exact hpl _ (fun o ho => ho)
+
+/-- **zippy_net_text_followup_raw_partial** (what `<fix-class-1>` and `<fix-class-7-8>` make true).
+A line `c1 c2 ↦ out2` whose first chord `K1` has no expansion of its own (kanata's "r df ↦ recipient"):
+`K1` is a top-level chord with empty output and nothing inside it, `K2 ↦ out2` its follow-up with no
+other follow-up inside `K2` and no top-level chord properly inside `K2` — but the keys of `K2` need
+NOT occur in any top-level chord.  From a fresh state: the keys of `K1` in ANY order (they are typed),
+all released in ANY order (first release inside the restarted deadline), `g` ticks, the keys of `K2`
+in ANY order inside the deadline.  Then the text is the text before plus exactly `out2` (and its smart
+space): the keys typed for `K1` and for `K2` have all been erased, no more and no fewer, and the
+modifiers are as the user holds them.
+Missing for the full statement: follow-up chords that contain a top-level chord or another follow-up
+(recorded findings), chains of three and more chords. -/
+theorem zippy_net_text_followup_raw_partial (cfg : Cfg) (K1 K2 : Key) (out2 : List ZchOut) (s : Zchd) (b : Buf)
+    (front1 : List (Nat × Nat)) (last1 : Nat) (rels : List (Nat × Nat)) (g : Nat)
+    (front2 : List (Nat × Nat)) (last2 : Nat)
+    (hlead : LeadEntry cfg.dict K1) (hent : FollowEntry cfg.dict [K1] K2 out2)
+    (hkeys1 : ∀ x ∈ K1, isZippyIgnored x = false) (hkeys2 : ∀ x ∈ K2, isZippyIgnored x = false)
+    (hout : out2.isEmpty = false) (hko : ∀ o ∈ out2, CharKey o.osc)
+    (hperm1 : (front1.map (·.1) ++ [last1]).Perm K1)
+    (hrel : (rels.map (·.2)).Perm K1)
+    (hperm2 : (front2.map (·.1) ++ [last2]).Perm K2)
+    (hgap1 : ∀ kg ∈ front1, kg.2 ≤ TICKS_UNTIL_FORCE_STATE_RESET)
+    (hgapr : ∀ gk ∈ rels, gk.1 ≤ TICKS_UNTIL_FORCE_STATE_RESET)
+    (hg : g ≤ TICKS_UNTIL_FORCE_STATE_RESET)
+    (hgap2 : ∀ kg ∈ front2, kg.2 ≤ TICKS_UNTIL_FORCE_STATE_RESET)
+    (hdl1 : cfg.ticksChordDeadline = 0 ∨ (front1.map (·.2)).sum < cfg.ticksChordDeadline)
+    (hdlr : cfg.ticksChordDeadline = 0 ∨ (rels.headD (0, 0)).1 < cfg.ticksChordDeadline)
+    (hdl2 : cfg.ticksChordDeadline = 0 ∨ (front2.map (·.2)).sum < cfg.ticksChordDeadline)
+    (hfresh : Fresh s) (hss : s.smartSpaceState = .inactive) (hmods : ModsAgree s b) :
+    let r := zRun cfg s ((chordHist front1 ++ [.press last1]) ++ (relHist rels ++
+      (List.replicate g .tick ++ (chordHist front2 ++ [.press last2]))))
+    (b.run r.2).rtext = withSmartSpace cfg out2 (typeOuts b.rtext (s.lsft || s.rsft) out2) ∧
+    ModsAgree s (b.run r.2) :=
+  followup_raw_run cfg K1 K2 out2 s b front1 last1 rels g front2 last2 hlead hent hkeys1 hkeys2 hout hko
+    hperm1 hrel hperm2 hgap1 hgapr hg hgap2 hdl1 hdlr hdl2 hfresh hss hmods
+
+/-- dictionary `r df ↦ re` alone, as the parser builds it -/
+def exCfg3 : Cfg :=
+  ⟨[⟨[], [19], []⟩, ⟨[[19]], [32, 33], [⟨.lower, false, 19⟩, ⟨.lower, false, 18⟩]⟩], 500, 500, .disabled, []⟩
+
+/-- The hypotheses of `zippy_net_text_followup_raw_partial` are met by kanata's own example line
+"r df ↦ re(cipient)" as the only line of the dictionary (r; release; f, d), and the text is `re`. -/
 example :
     let s : Zchd := zchConfigure Zchd.default
-    BasicEntry exCfg2.dict [30, 48] [⟨.lower, false, 45⟩, ⟨.lower, false, 21⟩] ∧
-    hasFollowups exCfg2.dict [[30, 48]] = false ∧
-    ExtEntry exCfg2.dict [30, 48] [30, 46, 48] [⟨.lower, false, 45⟩, ⟨.lower, false, 21⟩, ⟨.lower, false, 44⟩] ∧
-    (List.map Prod.fst ([(48, 2)] : List (Nat × Nat)) ++ [30]).Perm [30, 48] ∧
-    (List.map Prod.fst ([] : List (Nat × Nat)) ++ [46]).Perm
-      (([30, 46, 48] : List Nat).filter (fun x => !([30, 48] : List Nat).contains x)) ∧
+    buildDict [⟨[[19], [32, 33]], [⟨.lower, false, 19⟩, ⟨.lower, false, 18⟩]⟩] = .ok exCfg3.dict ∧
+    LeadEntry exCfg3.dict [19] ∧
+    FollowEntry exCfg3.dict [[19]] [32, 33] [⟨.lower, false, 19⟩, ⟨.lower, false, 18⟩] ∧
     Fresh s ∧
-    (Buf.empty.run (zRun exCfg2 s ((chordHist [(48, 2)] ++ [.press 30]) ++
-      (List.replicate 7 .tick ++ (chordHist [] ++ [.press 46])))).2).shown =
-      [⟨45, false, false⟩, ⟨21, false, false⟩, ⟨44, false, false⟩, ⟨57, false, false⟩] := by
-  have hl : level exCfg2.dict [] = [([30, 48], [⟨.lower, false, 45⟩, ⟨.lower, false, 21⟩]),
-      ([30, 46, 48], [⟨.lower, false, 45⟩, ⟨.lower, false, 21⟩, ⟨.lower, false, 44⟩])] := by decide
-  refine ⟨⟨by decide, by decide, by unfold StrictSorted; decide, ?_, by decide⟩, by decide,
-    ⟨by decide, by decide, by unfold StrictSorted; decide, ?_, by decide⟩, by decide, by decide,
+    (Buf.empty.run (zRun exCfg3 s ((chordHist [] ++ [.press 19]) ++ (relHist [(3, 19)] ++
+      (List.replicate 5 .tick ++ (chordHist [(33, 1)] ++ [.press 32]))))).2).shown =
+      [⟨19, false, false⟩, ⟨18, false, false⟩] := by
+  have hl0 : level exCfg3.dict [] = [([19], [])] := by decide
+  have hl1 : level exCfg3.dict [[19]] = [([32, 33], [⟨.lower, false, 19⟩, ⟨.lower, false, 18⟩])] := by decide
+  refine ⟨by rfl, ⟨by decide, by decide, by unfold StrictSorted; decide, ?_, by decide⟩,
+    ⟨by decide, by decide, by unfold StrictSorted; decide, ?_, by decide, by decide⟩,
     ⟨rfl, rfl, rfl, rfl, rfl, rfl, rfl⟩, by decide⟩
-  · intro o h; rw [hl] at h; simp at h; exact h
-  · intro o h; rw [hl] at h; simp at h; exact h
+  · intro o h; rw [hl0] at h; simp at h; exact h
+  · intro o h; rw [hl1] at h; simp at h; exact h
 
-/-! ### Witnesses that the full statement fails on the code as it is
-(each also runs on the real code from corpus/C20.txt and is recorded in KNOWN_FINDINGS.jsonl) -/
+/-- **zippy_net_text_followup_partial**.  A line `c1 ↦ outA` and its follow-up `c1 c2 ↦ out2` (kanata's
+"dy ↦ day, dy 1 ↦ Monday"), `outA` without Backspace / no-erase outputs: from a fresh state the keys of
+`K1` in ANY order, all released in any order, `g` ticks, the keys of `K2` in ANY order.  Then the text
+is the text before plus exactly `out2` (and its smart space): `outA`, its smart space and every key
+typed on the way have been erased — through the common-prefix shortcut, and also when the first key
+of `K2` is a smart-space punctuation key that removes the smart space first (`<fix-class-6>`), and
+whether or not the keys of `K2` occur in a top-level chord (`<fix-class-1>`).
+Missing for the full statement: as for `zippy_net_text_followup_raw_partial`, and `outA` with
+Backspace (a recorded finding) or no-erase outputs. -/
+theorem zippy_net_text_followup_partial (cfg : Cfg) (K1 K2 : Key) (outA out2 : List ZchOut) (s : Zchd) (b : Buf)
+    (front1 : List (Nat × Nat)) (last1 : Nat) (rels : List (Nat × Nat)) (g : Nat)
+    (front2 : List (Nat × Nat)) (last2 : Nat)
+    (hent1 : BasicEntry cfg.dict K1 outA) (hent : FollowEntry cfg.dict [K1] K2 out2)
+    (hkeys1 : ∀ x ∈ K1, isZippyIgnored x = false) (hkeys2 : ∀ x ∈ K2, isZippyIgnored x = false)
+    (houtA : outA.isEmpty = false) (hkoA : ∀ o ∈ outA, CharKey o.osc) (hpA : PlainOuts outA)
+    (hout : out2.isEmpty = false) (hko : ∀ o ∈ out2, CharKey o.osc)
+    (hperm1 : (front1.map (·.1) ++ [last1]).Perm K1)
+    (hrel : (rels.map (·.2)).Perm K1)
+    (hperm2 : (front2.map (·.1) ++ [last2]).Perm K2)
+    (hgap1 : ∀ kg ∈ front1, kg.2 ≤ TICKS_UNTIL_FORCE_STATE_RESET)
+    (hgapr : ∀ gk ∈ rels, gk.1 ≤ TICKS_UNTIL_FORCE_STATE_RESET)
+    (hg : g ≤ TICKS_UNTIL_FORCE_STATE_RESET)
+    (hgap2 : ∀ kg ∈ front2, kg.2 ≤ TICKS_UNTIL_FORCE_STATE_RESET)
+    (hdl1 : cfg.ticksChordDeadline = 0 ∨ (front1.map (·.2)).sum < cfg.ticksChordDeadline)
+    (hdlr : cfg.ticksChordDeadline = 0 ∨ (rels.headD (0, 0)).1 < cfg.ticksChordDeadline)
+    (hdl2 : cfg.ticksChordDeadline = 0 ∨ (front2.map (·.2)).sum < cfg.ticksChordDeadline)
+    (hfresh : Fresh s) (hmods : ModsAgree s b) :
+    let base := bufAfterPunct cfg s ((front1.map (·.1) ++ [last1]).headD 0) b
+    let r := zRun cfg s ((chordHist front1 ++ [.press last1]) ++ (relHist rels ++
+      (List.replicate g .tick ++ (chordHist front2 ++ [.press last2]))))
+    (b.run r.2).rtext = withSmartSpace cfg out2 (typeOuts base.rtext (s.lsft || s.rsft) out2) ∧
+    ModsAgree s (b.run r.2) :=
+  followup_typed_run cfg K1 K2 outA out2 s b front1 last1 rels g front2 last2 hent1 hent hkeys1 hkeys2
+    houtA hkoA hpA hout hko hperm1 hrel hperm2 hgap1 hgapr hg hgap2 hdl1 hdlr hdl2 hfresh hmods
 
-/-- **zippy_followup_multikey_counterexample**.  Dictionary `r df ↦ re` alone (kanata's own example line
-"r df ↦ recipient", shortened): press r, release r, press d, press f.  Required: `re`.  The model — and the
-real code — leave `rdf`: `d` is a subset of the follow-up chord `df` but of no top-level chord, so the
-top-level lookup answers Neither and zippychord resets. -/
+/-- dictionary `dy ↦ day`, `dy .g ↦ dig`, smart-space full with `.` a punctuation key -/
+def exCfg4 : Cfg :=
+  ⟨[⟨[], [21, 32], [⟨.lower, false, 32⟩, ⟨.lower, false, 30⟩, ⟨.lower, false, 21⟩]⟩,
+    ⟨[[21, 32]], [34, 52], [⟨.lower, false, 32⟩, ⟨.lower, false, 23⟩, ⟨.lower, false, 34⟩]⟩],
+   500, 500, .full, [⟨.lower, false, 52⟩]⟩
+
+/-- The hypotheses of `zippy_net_text_followup_partial` are met by a concrete instance in which the
+follow-up chord `. g` starts with the punctuation key (d y; release; `.` g): `day␣` becomes `dig␣`. -/
+example :
+    let s : Zchd := zchConfigure Zchd.default
+    BasicEntry exCfg4.dict [21, 32] [⟨.lower, false, 32⟩, ⟨.lower, false, 30⟩, ⟨.lower, false, 21⟩] ∧
+    FollowEntry exCfg4.dict [[21, 32]] [34, 52] [⟨.lower, false, 32⟩, ⟨.lower, false, 23⟩, ⟨.lower, false, 34⟩] ∧
+    PlainOuts [⟨.lower, false, 32⟩, ⟨.lower, false, 30⟩, ⟨.lower, false, 21⟩] ∧ Fresh s ∧
+    (Buf.empty.run (zRun exCfg4 s ((chordHist [(32, 1)] ++ [.press 21]) ++ (relHist [(3, 21), (1, 32)] ++
+      (List.replicate 5 .tick ++ (chordHist [(52, 1)] ++ [.press 34]))))).2).shown =
+      [⟨32, false, false⟩, ⟨23, false, false⟩, ⟨34, false, false⟩, ⟨57, false, false⟩] := by
+  have hl0 : level exCfg4.dict [] = [([21, 32], [⟨.lower, false, 32⟩, ⟨.lower, false, 30⟩, ⟨.lower, false, 21⟩])] := by decide
+  have hl1 : level exCfg4.dict [[21, 32]] =
+      [([34, 52], [⟨.lower, false, 32⟩, ⟨.lower, false, 23⟩, ⟨.lower, false, 34⟩])] := by decide
+  refine ⟨⟨by decide, by decide, by unfold StrictSorted; decide, ?_, by decide⟩,
+    ⟨by decide, by decide, by unfold StrictSorted; decide, ?_, by decide, by decide⟩, ?_,
+    ⟨rfl, rfl, rfl, rfl, rfl, rfl, rfl⟩, by decide⟩
+  · intro o h; rw [hl0] at h; simp at h; exact h
+  · intro o h; rw [hl1] at h; simp at h; exact h
+  · intro o ho; simp at ho; rcases ho with rfl | rfl | rfl <;> decide
+
+/-! ### Witnesses of the defects the pinned code had
+(about `zRunPinned`, the model of the code before the `fix:` commits; each witness also runs on the real
+code from corpus/C20.txt, where it now passes; next to each, the same input on the fixed model) -/
+
+/-- **zippy_followup_multikey_counterexample** (pinned code; repaired by `<fix-class-1>`).  Dictionary
+`r df ↦ re` alone (kanata's own example line "r df ↦ recipient", shortened): press r, release r, press d,
+press f.  Required: `re`.  The pinned code left `rdf`: `d` is a subset of the follow-up chord `df` but of
+no top-level chord, so the top-level lookup answered Neither and zippychord reset. -/
 theorem zippy_followup_multikey_counterexample :
-    let cfg : Cfg := ⟨[⟨[], [19], []⟩, ⟨[[19]], [32, 33], [⟨.lower, false, 19⟩, ⟨.lower, false, 18⟩]⟩],
-      500, 500, .disabled, []⟩
-    (Buf.empty.run (zRun cfg (zchConfigure Zchd.default) [.press 19, .release 19, .press 32, .press 33]).2).shown =
+    (Buf.empty.run (zRunPinned exCfg3 (zchConfigure Zchd.default) [.press 19, .release 19, .press 32, .press 33]).2).shown =
       [⟨19, false, false⟩, ⟨32, false, false⟩, ⟨33, false, false⟩] := by
   decide
 
-/-- **zippy_prefix_reuse_counterexample**.  Dictionary `e ↦ a`, `e, ↦ a.`, `e,.b ↦ ␣btY`; press e , b . in one
-hold.  Required: ` btY`.  The code leaves `a btY`: after re-using the common prefix `a` of the first two
-expansions the erase counter restarts from the newly typed characters only. -/
+example : (Buf.empty.run (zRun exCfg3 (zchConfigure Zchd.default) [.press 19, .release 19, .press 32, .press 33]).2).shown =
+    [⟨19, false, false⟩, ⟨18, false, false⟩] := by decide
+
+/-- dictionary `e ↦ a`, `e, ↦ a.`, `e,.b ↦ ␣btY` -/
+def cexPrefixCfg : Cfg := ⟨[⟨[], [18], [⟨.lower, false, 30⟩]⟩,
+  ⟨[], [18, 51], [⟨.lower, false, 30⟩, ⟨.lower, false, 52⟩]⟩,
+  ⟨[], [18, 48, 51, 52], [⟨.lower, false, 57⟩, ⟨.lower, false, 48⟩, ⟨.lower, false, 20⟩, ⟨.upper, false, 21⟩]⟩],
+  500, 500, .disabled, []⟩
+
+/-- **zippy_prefix_reuse_counterexample** (pinned code; repaired by `<fix-class-4>`).  Press e , b . in one
+hold.  Required: ` btY`.  The pinned code left `a btY`: after re-using the common prefix `a` of the first
+two expansions the erase counter restarted from the newly typed characters only. -/
 theorem zippy_prefix_reuse_counterexample :
-    let cfg : Cfg := ⟨[⟨[], [18], [⟨.lower, false, 30⟩]⟩,
-      ⟨[], [18, 51], [⟨.lower, false, 30⟩, ⟨.lower, false, 52⟩]⟩,
-      ⟨[], [18, 48, 51, 52], [⟨.lower, false, 57⟩, ⟨.lower, false, 48⟩, ⟨.lower, false, 20⟩, ⟨.upper, false, 21⟩]⟩],
-      500, 500, .disabled, []⟩
-    (Buf.empty.run (zRun cfg (zchConfigure Zchd.default) [.press 18, .press 51, .press 48, .press 52]).2).shown =
+    (Buf.empty.run (zRunPinned cexPrefixCfg (zchConfigure Zchd.default) [.press 18, .press 51, .press 48, .press 52]).2).shown =
       [⟨30, false, false⟩, ⟨57, false, false⟩, ⟨48, false, false⟩, ⟨20, false, false⟩, ⟨21, true, false⟩] := by
   decide
 
-/-- **zippy_shift_prefix_counterexample**.  Dictionary `ab ↦ xy`, `abc ↦ xyz`; hold left shift, press a b c.
-Required (first keystroke of the expansion under the user's shift): `Xyz`.  The code leaves `XyZ`. -/
+example : (Buf.empty.run (zRun cexPrefixCfg (zchConfigure Zchd.default) [.press 18, .press 51, .press 48, .press 52]).2).shown =
+    [⟨57, false, false⟩, ⟨48, false, false⟩, ⟨20, false, false⟩, ⟨21, true, false⟩] := by decide
+
+/-- **zippy_shift_prefix_counterexample** (pinned code; repaired by `<fix-class-5>`).  Dictionary `a ↦ x`,
+`ab ↦ xy`, `abc ↦ xyz`; hold left shift, press a b c.  Required (first keystroke of the expansion under the
+user's shift): `Xyz`.  The pinned code left `XYZ`: every re-use of the prefix typed its first new character
+shifted. -/
 theorem zippy_shift_prefix_counterexample :
-    (Buf.empty.run (zRun { exCfg2 with smartSpace := .disabled } (zchConfigure Zchd.default)
+    (Buf.empty.run (zRunPinned { exCfg2 with smartSpace := .disabled } (zchConfigure Zchd.default)
       [.press KEY_LEFTSHIFT, .press 30, .press 48, .press 46]).2).shown =
-      [⟨45, true, false⟩, ⟨21, false, false⟩, ⟨44, true, false⟩] := by
+      [⟨45, true, false⟩, ⟨21, true, false⟩, ⟨44, true, false⟩] := by
   decide
 
-/-- **zippy_smartspace_punctuation_counterexample**.  Dictionary `dy ↦ day`, `.g ↦ git`, smart-space full
-(default punctuation `. , ;`): chord d y, release, then chord . g.  Required: `day` then `git ` with the
-typed `.` erased.  The code leaves `day.git `: the erase counter is decremented for the smart space
-although after the full release it no longer counts it. -/
+example : (Buf.empty.run (zRun { exCfg2 with smartSpace := .disabled } (zchConfigure Zchd.default)
+    [.press KEY_LEFTSHIFT, .press 30, .press 48, .press 46]).2).shown =
+    [⟨45, true, false⟩, ⟨21, false, false⟩, ⟨44, false, false⟩] := by decide
+
+/-- dictionary `dy ↦ day`, `.g ↦ git`, smart-space full with the default punctuation `. , ;` -/
+def cexPunctCfg : Cfg := ⟨[⟨[], [21, 32], [⟨.lower, false, 32⟩, ⟨.lower, false, 30⟩, ⟨.lower, false, 21⟩]⟩,
+  ⟨[], [34, 52], [⟨.lower, false, 34⟩, ⟨.lower, false, 23⟩, ⟨.lower, false, 20⟩]⟩],
+  500, 500, .full, [⟨.lower, false, 52⟩, ⟨.lower, false, 51⟩, ⟨.lower, false, 39⟩]⟩
+
+/-- **zippy_smartspace_punctuation_counterexample** (pinned code; repaired by `<fix-class-6>`).  Chord d y,
+release, then chord . g.  Required: `day` then `git ` with the typed `.` erased.  The pinned code left
+`day.git `: the erase counter was decremented for the smart space although after the full release it no
+longer counted it. -/
 theorem zippy_smartspace_punctuation_counterexample :
-    let cfg : Cfg := ⟨[⟨[], [21, 32], [⟨.lower, false, 32⟩, ⟨.lower, false, 30⟩, ⟨.lower, false, 21⟩]⟩,
-      ⟨[], [34, 52], [⟨.lower, false, 34⟩, ⟨.lower, false, 23⟩, ⟨.lower, false, 20⟩]⟩],
-      500, 500, .full, [⟨.lower, false, 52⟩, ⟨.lower, false, 51⟩, ⟨.lower, false, 39⟩]⟩
-    (Buf.empty.run (zRun cfg (zchConfigure Zchd.default)
+    (Buf.empty.run (zRunPinned cexPunctCfg (zchConfigure Zchd.default)
       [.press 32, .press 21, .release 32, .release 21, .press 52, .press 34]).2).shown =
       [⟨32, false, false⟩, ⟨30, false, false⟩, ⟨21, false, false⟩, ⟨52, false, false⟩,
        ⟨34, false, false⟩, ⟨23, false, false⟩, ⟨20, false, false⟩, ⟨57, false, false⟩] := by
   decide
+
+example : (Buf.empty.run (zRun cexPunctCfg (zchConfigure Zchd.default)
+    [.press 32, .press 21, .release 32, .release 21, .press 52, .press 34]).2).shown =
+    [⟨32, false, false⟩, ⟨30, false, false⟩, ⟨21, false, false⟩,
+     ⟨34, false, false⟩, ⟨23, false, false⟩, ⟨20, false, false⟩, ⟨57, false, false⟩] := by decide
+
+/-- dictionary `1 . ↦ Tya`, `1 . .1 ↦ 1>␣` (the first chord `1` has no output) -/
+def cexPriorCfg : Cfg := ⟨[⟨[], [2], []⟩, ⟨[[2]], [52], [⟨.upper, false, 20⟩, ⟨.lower, false, 21⟩, ⟨.lower, false, 30⟩]⟩,
+  ⟨[[2], [52]], [2, 52], [⟨.lower, false, 2⟩, ⟨.upper, false, 52⟩, ⟨.lower, false, 57⟩]⟩], 1, 50, .disabled, []⟩
+
+/-- **zippy_prior_count_counterexample** (pinned code; repaired by `<fix-class-7-8>`).  The chain `1`, `.`
+(↦ `Tya`) performed twice.  Required: `TyaTya`.  The pinned code left `Tya`: the second `1` added to the
+prior output count left over from the first chain instead of restarting it, so the second `.` erased the
+first `Tya` as well. -/
+theorem zippy_prior_count_counterexample :
+    (Buf.empty.run (zRunPinned cexPriorCfg (zchConfigure Zchd.default)
+      [.press 2, .release 2, .press 52, .release 52, .press 2, .release 2, .press 52, .release 52]).2).shown =
+      [⟨20, true, false⟩, ⟨21, false, false⟩, ⟨30, false, false⟩] := by
+  decide
+
+example : (Buf.empty.run (zRun cexPriorCfg (zchConfigure Zchd.default)
+    [.press 2, .release 2, .press 52, .release 52, .press 2, .release 2, .press 52, .release 52]).2).shown =
+    [⟨20, true, false⟩, ⟨21, false, false⟩, ⟨30, false, false⟩,
+     ⟨20, true, false⟩, ⟨21, false, false⟩, ⟨30, false, false⟩] := by decide
 
 /-- **zippy_shift_restored** (full, per event).  With a dictionary configured whose expansions consist
 of character keys, for EVERY state of zippychord, every buffer whose shift / AltGr state is what
